@@ -13,6 +13,7 @@ import (
 type encoderObj struct {
 	w    Iface
 	kind string
+	n    int // Encode calls so far on this encoder
 }
 
 func (e *Engine) registerEncIntrinsics() {
@@ -31,6 +32,11 @@ func (e *Engine) registerEncIntrinsics() {
 		}
 		eo := (*p).(*encoderObj)
 		s := concatStr(r.renderRecord(a[1]), strLit("\n"))
+		if eo.kind == "yaml" && eo.n > 0 {
+			// yaml.v3: every document after the first one of an encoder is preceded by the separator line
+			s = concatStr(strLit("---\n"), s)
+		}
+		eo.n++
 		m := r.eng.prog.LookupMethod(eo.w.T, nil, "Write")
 		if m == nil {
 			panic(unsupported("Write method not found on %v", eo.w.T))
